@@ -89,6 +89,11 @@ def gen_unit(seed, nnames, maxdepth, pool_size):
                         e = name
                     else:
                         e = "sizeof(%s)" % name
+                    if not want_tag and d(_int(0, 4)) == 0:
+                        # the operand of an alignment specifier is an ordinary constant expression of the current scope
+                        lines.append("%s%sint c%d = sizeof(struct { char c; _Alignas(1 << ((%s) %% 5)) char d; });" % (indent, "static " if static else "", k, e))
+                        exp[k] = 2 * (1 << (v % 5))
+                        return
                     lines.append("%s%sint c%d = %s;" % (indent, "static " if static else "", k, e))
                     exp[k] = v
                     return
